@@ -13,8 +13,10 @@ EXPLANATION = (
     "write; the release window holds PUBREL objects only and the publish window/queue PUBLISH objects only, and each retry "
     "timer target is armed with elements of its own registries only, so the resume path and the timers can never write the "
     "PUBLISH of an exchange that has reached the release window; the release window is emptied only by PUBCOMP and by the "
-    "session purge, the publish window only by PUBACK, PUBREC and the purge. Decides the structure; wire order over "
-    "histories is not explored.")
+    "session purge, the publish window only by PUBACK, PUBREC and the purge; a PUBLISH and a PUBREL are each driven by a single "
+    "retry timer (alarm overwritten only when the old handle is not pending, entries leave their window cancelled), so the "
+    "cancellation in the PUBREC handler really silences the PUBLISH. Decides the structure; wire order over histories is "
+    "not explored.")
 ASSUMPTIONS = []
 
 OWN = {"PUBLISH": {"queuePublishTx", "windowPublish"}, "PUBREL": {"windowPubRelease"}}
@@ -116,5 +118,10 @@ def check(ctx):
             ctx.ob("Q-RETRY", "%s %s is armed with %s entries only" % (cq, short(tq), fam), ok, where=where(e0), function=e0.func,
                    construct="%s/armed-with/%s" % (tq, "+".join(sorted(regs))),
                    msg="retry callback %s is armed with entries of %s: a PUBLISH could be retried after its PUBREL (or vice versa)" % (short(tq), sorted(regs)))
+    # "no PUBLISH timer survives the PUBREC" needs the PUBLISH to be driven by a single timer, which the PUBREC handler cancels:
+    # the alarm of a publish-window entry is overwritten only when the old handle is not pending, and entries leave the window cancelled
+    from .c13 import timer_discipline
+    for cls in classes:
+        timer_discipline(ctx, a, cls, regs=("windowPublish", "windowPubRelease"), r_cancel="Q-TIMER", r_arm="Q-TIMER")
     ctx.count("pubrel_creation_sites", nrel)
     ctx.floor("PUBREL creation events", nrel, 2)
